@@ -104,6 +104,8 @@ func (np *nameProv) ok(v ssa.Value, use ssa.Instruction, depth int) (bool, strin
 		switch {
 		case n == "(time.Time).Format":
 			return true, ""
+		case n == "strconv.FormatFloat":
+			return true, "" // digits, sign, point, exponent: no separators
 		case n == "fmt.Sprintf":
 			f, isC := constOf(argsOf(x)[0])
 			if !isC {
@@ -387,12 +389,15 @@ func runC18(c *Ctx) {
 				// every condition this site sits under is one of the two filters (loop mechanics aside)
 				for _, f := range facts {
 					cl, isCall := f.Cond.(*ssa.Call)
+					kind, sv, pv, isAffix := affixTest(f.Cond)
 					switch {
 					case isCall && strings.HasSuffix(calleeName(&cl.Call), "DirEntry).IsDir") && !f.Pol:
 						sawDir = true
-					case isCall && calleeName(&cl.Call) == "strings.HasPrefix" && f.Pol && describe(cl.Call.Args[1]) == "param:prefix" &&
-						(describe(cl.Call.Args[0]) == "path/filepath.ToSlash(param:path)" || cl.Call.Args[0] == gs.elem || describe(cl.Call.Args[0]) == ed):
+					case isAffix && kind == "HasPrefix" && f.Pol && describe(pv) == "param:prefix" &&
+						(describe(sv) == "path/filepath.ToSlash(param:path)" || sv == gs.elem || describe(sv) == ed):
 						sawPrefix = true
+					case c18PrefixLenGuard(f):
+						// the length guard of a hand-written prefix test
 					case isLoopMechanics(f):
 					default:
 						okShape = false
@@ -405,7 +410,10 @@ func runC18(c *Ctx) {
 			// and nothing else filters in the callback: its branches are the two tests (or fewer, when the prefix is applied in a later pass)
 			nIf := 0
 			for _, in := range instrsOf(cb) {
-				if _, ok := in.(*ssa.If); ok {
+				if ifi, ok := in.(*ssa.If); ok {
+					if c18PrefixLenGuard(normFact(ifi.Cond, true)) {
+						continue // part of a hand-written prefix test
+					}
 					nIf++
 				}
 			}
@@ -608,4 +616,22 @@ func c18WhoCreates(c *Ctx, gd *Module) {
 		}
 	}
 	r.Check("C18.listing-exact", "file-creating calls of the storage package enumerated", "-", n >= 1, fmt.Sprintf("%d", n))
+}
+
+// c18PrefixLenGuard: len(name) >= len(prefix) (in any of its spellings), the guard that a
+// hand-written prefix test needs before it slices the name.
+func c18PrefixLenGuard(f Fact) bool {
+	bo, ok := f.Cond.(*ssa.BinOp)
+	if !ok {
+		return false
+	}
+	switch bo.Op {
+	case token.GEQ, token.LEQ, token.LSS, token.GTR:
+	default:
+		return false
+	}
+	dx, dy := describe(bo.X), describe(bo.Y)
+	isLenPrefix := func(d string) bool { return d == "builtin:len(param:prefix)" }
+	isLenName := func(d string) bool { return strings.HasPrefix(d, "builtin:len(") && !isLenPrefix(d) }
+	return (isLenPrefix(dx) && isLenName(dy)) || (isLenPrefix(dy) && isLenName(dx))
 }
